@@ -130,32 +130,47 @@ def first_diff(a, b):
 
 
 def union_model(singles):
-    """disjoint union of single-file canonical graphs; types identified by true name"""
+    """disjoint union of single-file canonical graphs; types identified by true name.  Which definition's record
+    survives: the only fully defined one; among several fully defined ones the only one that is global in its own
+    file (InterrogateType::merge_with: "if both types are fully defined, whichever type is marked global wins" --
+    this makes the outcome independent of the load order, so it is compared); with several or no global fully
+    defined definitions (or no fully defined one at all) the survivor depends on the order and is left open."""
     out = {}
     multi = set()
+    recs = {}
     for c in singles:
         for k, r in c.items():
             if k == "__enumerations__":
                 continue
-            if k.startswith("T:") and k in out:
-                a, b = out[k], r
-                g = a["is_global"] or b["is_global"]
-                if a["is_fully_defined"] and b["is_fully_defined"]:
-                    multi.add(k)
-                    win = a
-                elif b["is_fully_defined"]:
-                    win = b
-                elif a["is_fully_defined"]:
-                    win = a
-                else:
-                    multi.add(k)
-                    win = a
-                out[k] = dict(win, is_global=g)
+            if k.startswith("T:"):
+                recs.setdefault(k, []).append(r)
             elif k in out and out[k] != r:
                 multi.add(k)
             else:
                 out[k] = r
+    for k, rs in recs.items():
+        g = any(r["is_global"] for r in rs)
+        D = [r for r in rs if r["is_fully_defined"]]
+        if len(rs) == 1:
+            win = rs[0]
+        elif len(D) == 1:
+            win = D[0]
+        elif not D:
+            multi.add(k)
+            win = rs[0]
+        else:
+            G = [r for r in D if r["is_global"]]
+            if len(G) == 1:
+                win = G[0]
+                union_model.decided_by_global += 1
+            else:
+                multi.add(k)
+                win = D[0]
+        out[k] = dict(win, is_global=g)
     return out, multi
+
+
+union_model.decided_by_global = 0
 
 
 def run_script(lines, cwd):
@@ -208,7 +223,9 @@ def run_case(ctx, case):
             return res
         sdumps.append(d)
         singles.append(canon(d))
+    union_model.decided_by_global = 0
     model, multi = union_model(singles)
+    res.count("types_fully_defined_in_several_files_decided_by_global_flag", union_model.decided_by_global)
     rng = random.Random(case["seed"])
     ref = None
     rcase = dict(case)
@@ -325,7 +342,7 @@ def main(chk):
     cid = 0
     styles = ["after", "between", "lookup-first", "all"]
     for k in (2, 3, 4):
-        n = {2: chk.pick(3, 10), 3: chk.pick(5, 60), 4: chk.pick(2, 40)}[k]
+        n = {2: chk.pick(6, 40), 3: chk.pick(14, 300), 4: chk.pick(5, 150)}[k]
         for i in range(n):
             pairs = [(a, c) for a in range(k) for c in range(k) if a != c]
             edges = [p for p in pairs if rng.random() < rng.choice([0.3, 0.5])]
